@@ -546,3 +546,55 @@ func (c *Control) VerifPendingOf(localIndex uint32) string {
 func (c *Control) VerifSockets() []udp.Conn {
 	return append([]udp.Conn(nil), c.f.writers...)
 }
+
+// VerifKeyring remembers the tunnels a node holds at one moment, so that a datagram the node sends on a tunnel it deletes
+// a moment later (close messages, the last message before the connection manager drops a tunnel) can still be opened.
+type VerifKeyring struct{ byRemote map[uint32][]*HostInfo }
+
+func (c *Control) VerifKeyring() *VerifKeyring {
+	k := &VerifKeyring{byRemote: map[uint32][]*HostInfo{}}
+	hm := c.f.hostMap
+	hm.RLock()
+	for _, hi := range hm.Indexes {
+		if hi.ConnectionState != nil {
+			k.byRemote[hi.remoteIndexId] = append(k.byRemote[hi.remoteIndexId], hi)
+		}
+	}
+	hm.RUnlock()
+	return k
+}
+
+// OpenSent opens a datagram the node emitted on one of the remembered tunnels (read-only, like VerifOpenSent).
+func (k *VerifKeyring) OpenSent(data []byte) (*VerifOpened, bool) {
+	if k == nil {
+		return nil, false
+	}
+	h := &header.H{}
+	if err := h.Parse(data); err != nil || h.Type == header.Handshake || h.Type == header.RecvError {
+		return nil, false
+	}
+	if h.Type == header.Message && h.Subtype == header.MessageRelay {
+		return nil, false
+	}
+	for _, hi := range k.byRemote[h.RemoteIndex] {
+		if o, ok := verifOpenWith(hi, hi.ConnectionState.eKey, h, data); ok {
+			return o, true
+		}
+	}
+	return nil, false
+}
+
+// VerifSampleLiveness reads and clears the traffic marks of every tunnel the way the connection manager does when its
+// traffic timer fires (hostinfo.in / hostinfo.out are swapped to false); returns how many inbound marks were set.
+func (c *Control) VerifSampleLiveness() int {
+	n := 0
+	c.f.hostMap.RLock()
+	defer c.f.hostMap.RUnlock()
+	for _, h := range c.f.hostMap.Indexes {
+		if h.in.Swap(false) {
+			n++
+		}
+		h.out.Swap(false)
+	}
+	return n
+}
